@@ -551,7 +551,8 @@ def reference(stg, ax, sig, opts, ts_eval=None, cache=None, ax_fn=None):
         excl |= t_tie_rows[:, None]
     if edges:
         d = np.abs(x - c)
-        eps = 64 * gen.ulp(ax.fs[-1]) + 1e-9 * ax.df
+        # (with smearing the library advances the centre step by step: up to half an ulp of fmax per step)
+        eps = (64 + (2 * n_s if smear else 0)) * gen.ulp(ax.fs[-1]) + 1e-9 * ax.df
         near = np.zeros(d.shape, dtype=bool)
         for e in edges:
             near |= np.abs(d - e) < eps
